@@ -402,3 +402,45 @@ def check_C02(ctx):
         ctx.sample({k: c[k] for k in ("id", "source", "pass", "cfg", "outcome", "out_valid")})
     edit_histories(ctx, "C02", 100)
     ctx.assumptions += ["wasmparser's validator with walrus's feature list is the reference for validity", "DWARF generation on is covered by C10's check, not here"]
+
+
+def check_C15(ctx):
+    ctx.rule = ("design: Builder.tla (append / positional insert of stack-neutral units, block_at / loop_at / if_else_at, dangling sequences attached later, br / br_if to enclosing "
+                "sequences) model-checked for TreeShaped, FlatBalanced, BranchesInRange; implementation: every build history up to the bound (enumerated by TLC) and random longer ones are "
+                "replayed on the real FunctionBuilder, finished, emitted and decoded; the trace spec re-executes the history with Builder.tla's actions, computes the in-order flattening and "
+                "requires the emitted operator list to equal it modulo an injective type-preserving local map that pins the parameter. A case is one build history.")
+    q = ctx.quick()
+    L = 3 if q else 4
+    cfg = write_cfg("MC_Builder_gen", "SPECIFICATION Spec\nCONSTANTS\n  MaxOps = %d\nINVARIANTS\n  TreeShaped\n  FlatBalanced\n  BranchesInRange\nCHECK_DEADLOCK FALSE\n" % (L + 1 if q else L))
+    model_check(ctx, "Builder", cfg=cfg, workers=8, label="design-builder")
+    hist = os.path.join(ctx.work, "build_histories.txt")
+    cfg = write_cfg("Enum_Builder_gen", "SPECIFICATION Spec\nCONSTANTS\n  MaxOps = %d\nINVARIANTS\n  EmitCase\nCHECK_DEADLOCK FALSE\n" % L)
+    r = tlc("Builder", cfg=cfg, workers=8, cont=False, capture=("CASE", hist + ".a"), name="enum-builder")
+    ctx.add_mc(r, "enum-build-histories(len<=%d)" % L)
+    # longer histories: random walks
+    D = 9 if q else 14
+    cfg = write_cfg("Enum_Builder_genD", "SPECIFICATION Spec\nCONSTANTS\n  MaxOps = %d\nINVARIANTS\n  EmitCase\nCHECK_DEADLOCK FALSE\n" % D)
+    r = tlc("Builder", cfg=cfg, workers=8, cont=False, capture=("CASE", hist + ".b"), name="sim-builder", simulate="num=%d" % (4 if q else 60), extra=["-depth", str(D + 1), "-seed", str(ctx.seed)])
+    ctx.add_mc(r, "simulate-build-histories(len<=%d)" % D)
+    seen = set()
+    budget = 4000 if q else 100000
+    longer = [l for l in open(hist + ".b")]
+    step = max(1, len(longer) // budget)
+    with open(hist, "w") as out:
+        for line in list(open(hist + ".a")) + longer[::step]:
+            if line not in seen:
+                seen.add(line)
+                out.write(line)
+    ctx.notes["build_histories"] = len(seen)
+    ctx.exhaustive = True
+    ctx.notes["exhaustive_over"] = "all build histories of length <= %d (positions 0..3); longer histories are random walks" % L
+    trace = os.path.join(ctx.work, "builder.ndjson")
+    for f in os.listdir(ctx.work):
+        if f.startswith("builder.ndjson"):
+            os.remove(os.path.join(ctx.work, f))
+    shards = 6 if q else 16
+    wv(["trace-builder", "histories=" + hist, "out=" + trace, "shards=%d" % shards])
+    cases = judge_shards(ctx, "Trace_Builder", ["%s.%d" % (trace, k) for k in range(shards)], label="builder",
+                         slim=lambda c: {"id": c["id"], "hist": c["hist"]})
+    for c in cases[:1] + cases[len(cases) // 2: len(cases) // 2 + 1] + cases[-1:]:
+        ctx.sample({"id": c["id"], "hist": [(e["op"], e["seq"], e["pos"], e["kind"], e["d"]) for e in c["hist"]], "emitted": [o["o"] for o in c["outops"]]})
